@@ -16,6 +16,7 @@ import (
 	"time"
 
 	proto "github.com/kubewharf/kubebrain-client/api/v2rpc"
+	"github.com/tikv/client-go/v2/tikvrpc"
 	"go.etcd.io/etcd/api/v3/etcdserverpb"
 
 	"github.com/kubewharf/kubebrain/pkg/backend/coder"
@@ -217,6 +218,14 @@ type hist struct {
 	shuffle bool
 	// allRevs: read at every revision from the base to the current one
 	allRevs bool
+	// hooked (always on the mock TiKV, also in the quick tier; the regions are split at `borders`):
+	// holdSecondary — the commit of batches that hold only object records (the secondary keys of a write whose index
+	// record lies in another region) is held back until the reads of phase 1 are done: the writes are acknowledged and
+	// published while their object records are still locks (seeded change C03-7);
+	// tsRace — three times: a read A has its snapshot timestamp issued but not yet delivered, a write commits and is
+	// published, a read B at the new revision runs while A is still waiting (seeded change C03-8)
+	holdSecondary bool
+	tsRace        bool
 	// etcdAll: the whole range through the etcd Range API with every limit 0..n+1 at every read revision
 	etcdAll bool
 }
@@ -461,7 +470,49 @@ func runHist(engine, scratch string, h hist, rr *lib.Rand, kind string, quick, f
 	var inner storage.KvStorage
 	var closer func()
 	var err error
-	if realSplit {
+	hooked := h.holdSecondary || h.tsRace
+	holdCh := make(chan struct{})
+	var holding, tsGoid, heldCount int64
+	tsParked, tsRelease := make(chan struct{}, 1), make(chan struct{})
+	if hooked {
+		var cl *lib.TiKVHooked
+		cl, err = lib.NewTiKVHooked(h.borders...)
+		if err == nil {
+			closer = cl.Close
+			inner, err = cl.Open(1, func(ctx context.Context, addr string, req *tikvrpc.Request, next func() (*tikvrpc.Response, error)) (*tikvrpc.Response, error) {
+				if req.Type == tikvrpc.CmdCommit && atomic.LoadInt64(&holding) == 1 {
+					index := false
+					for _, k := range req.Commit().Keys {
+						if _, rev, derr := cd.Decode(k); derr != nil || rev == 0 {
+							index = true
+						}
+					}
+					if !index { // object records only: the store holding them is slow
+						atomic.AddInt64(&heldCount, 1)
+						select {
+						case <-holdCh:
+						case <-time.After(10 * time.Second):
+						}
+					}
+				}
+				return next()
+			}, func(ctx context.Context, next func() (int64, int64, error)) (int64, int64, error) {
+				p, l, e := next()
+				if g := atomic.LoadInt64(&tsGoid); g != 0 && g == lib.GoID() {
+					atomic.StoreInt64(&tsGoid, 0)
+					tsParked <- struct{}{} // the timestamp is issued; its delivery is late
+					select {
+					case <-tsRelease:
+					case <-time.After(10 * time.Second):
+					}
+				}
+				return p, l, e
+			})
+		}
+		if h.holdSecondary {
+			atomic.StoreInt64(&holding, 1)
+		}
+	} else if realSplit {
 		inner, closer, err = lib.NewTiKVSplit(h.borders...)
 	} else {
 		inner, closer, err = lib.NewEngine(engine, scratch)
@@ -489,7 +540,7 @@ func runHist(engine, scratch string, h hist, rr *lib.Rand, kind string, quick, f
 		if len(h.borders) > 0 {
 			w.Partitions = func(start, end []byte) []storage.Partition {
 				var res []storage.Partition
-				if realSplit {
+				if realSplit || hooked {
 					res, _ = inner.GetPartitions(context.Background(), start, end)
 				} else {
 					res = cut(h.borders, h.shuffle, start, end)
@@ -524,7 +575,8 @@ func runHist(engine, scratch string, h hist, rr *lib.Rand, kind string, quick, f
 		for _, x := range h.borders {
 			hb = append(hb, lib.Q(x))
 		}
-		jsonCase["partition_borders"], jsonCase["partitions_listed_in_reverse"], jsonCase["real_tikv_regions"] = hb, h.shuffle, realSplit
+		jsonCase["partition_borders"], jsonCase["partitions_listed_in_reverse"], jsonCase["real_tikv_regions"] = hb, h.shuffle, realSplit || hooked
+		jsonCase["hold_secondary_commits"], jsonCase["timestamp_race"] = h.holdSecondary, h.tsRace
 	}
 	fail := func(what string) caseOut {
 		res.failure = &lib.ImplFailure{What: what, Case: jsonCase}
@@ -532,20 +584,23 @@ func runHist(engine, scratch string, h hist, rr *lib.Rand, kind string, quick, f
 	}
 	var phases []phase
 	var reads []read
-	snap := func(ops []lib.RSOp, floor uint64) error {
+	snapWith := func(ops []lib.RSOp, floor uint64, outs []readOut) error {
 		d, err := lib.Dump(inner)
 		if err != nil {
 			return fmt.Errorf("dump: %v", err)
 		}
-		ph := phase{ops: ops, floor: floor, dump: d, cur: b.GetCurrentRevision()}
-		for _, r := range reads {
-			o := doRead(n, r)
-			res.outcomes[o.outcome]++
-			ph.outs = append(ph.outs, o)
+		ph := phase{ops: ops, floor: floor, dump: d, cur: b.GetCurrentRevision(), outs: outs}
+		if outs == nil {
+			for _, r := range reads {
+				o := doRead(n, r)
+				res.outcomes[o.outcome]++
+				ph.outs = append(ph.outs, o)
+			}
 		}
 		phases = append(phases, ph)
 		return nil
 	}
+	snap := func(ops []lib.RSOp, floor uint64) error { return snapWith(ops, floor, nil) }
 	// phase 1
 	for i := range h.ops1 {
 		if err := n.Apply(&h.ops1[i]); err != nil {
@@ -620,6 +675,66 @@ func runHist(engine, scratch string, h hist, rr *lib.Rand, kind string, quick, f
 		}
 		h.ops1 = append(h.ops1, bop, aop)
 	}
+	if h.holdSecondary { // the slow store catches up: the held secondary commits go through
+		atomic.StoreInt64(&holding, 0)
+		close(holdCh)
+		res.outcomes["secondary-commit-held"] += int(atomic.LoadInt64(&heldCount))
+		if atomic.LoadInt64(&heldCount) == 0 {
+			return fail("held-secondary scenario: no commit of secondary keys was intercepted (scenario degenerate)")
+		}
+	}
+	if h.tsRace {
+		whole := func(limit int64) read {
+			return read{Kind: "list", A: []byte("/r/"), B: []byte("/r0"), Rev: 0, Limit: limit}
+		}
+		bReads := []read{whole(0), whole(2), {Kind: "count", A: []byte("/r/"), B: []byte("/r0")}}
+		for i, br := range bReads {
+			aDone := make(chan struct{})
+			go func() {
+				atomic.StoreInt64(&tsGoid, lib.GoID())
+				doRead(n, whole(0)) // read A: its snapshot timestamp is issued, the response from PD is late
+				close(aDone)
+			}()
+			select {
+			case <-tsParked:
+			case <-time.After(3 * time.Second):
+				return fail("timestamp-race scenario: read A never asked for a timestamp (scenario degenerate)")
+			}
+			wop := lib.RSOp{Kind: "create", Key: []byte(fmt.Sprintf("/r/ts%d", i)), Val: []byte("w")}
+			if err := n.Apply(&wop); err != nil { // committed, acknowledged, published
+				return fail(err.Error())
+			}
+			if br.Kind == "list" {
+				br.Rev = b.GetCurrentRevision()
+			}
+			bOut := make(chan readOut, 1)
+			go func(r read) { bOut <- doRead(n, r) }(br)
+			var o readOut
+			select {
+			case o = <-bOut: // B has its own timestamp
+				res.outcomes["ts-race-b-independent"]++
+			case <-time.After(60 * time.Millisecond): // B waits for A's flight
+				res.outcomes["ts-race-b-waited-for-a"]++
+			}
+			tsRelease <- struct{}{}
+			if o.coq == "" {
+				select {
+				case o = <-bOut:
+				case <-time.After(5 * time.Second):
+					return fail("timestamp-race scenario: read B did not return")
+				}
+			}
+			select {
+			case <-aDone:
+			case <-time.After(5 * time.Second):
+				return fail("timestamp-race scenario: read A did not return")
+			}
+			res.outcomes[o.outcome]++
+			if err := snapWith([]lib.RSOp{wop}, 0, []readOut{o}); err != nil {
+				return fail(err.Error())
+			}
+		}
+	}
 	// phase 2: more writes and a compaction
 	for i := range h.ops2 {
 		if h.window && h.ops2[i].Prev != 0 { // generated before the window changed the revisions: keep it a plausible guard
@@ -690,6 +805,12 @@ func runHist(engine, scratch string, h hist, rr *lib.Rand, kind string, quick, f
 	if h.window {
 		res.c.Kind += "/window"
 	}
+	if h.holdSecondary {
+		res.c.Kind += "/held-secondary"
+	}
+	if h.tsRace {
+		res.c.Kind += "/ts-race"
+	}
 	if len(h.borders) > 0 {
 		res.c.Kind += "/partitioned"
 		for _, c := range calls {
@@ -740,6 +861,13 @@ func corpus() []hist {
 		// the etcd Range API at every revision with every limit 0..n+1 (seeded change C03-6: More when exactly `limit` keys exist)
 		{keys: []string{"/r/a", "/r/ab", "/r/b"}, ops1: []lib.RSOp{c("/r/a", x), c("/r/ab", x), c("/r/b", x), d("/r/ab", 0), u("/r/a", []byte("x2"), 101)},
 			ops2: []lib.RSOp{c("/r/ab", x)}, compact: math.MaxUint64, allRevs: true, etcdAll: true},
+		// TiKV, region borders between the index record and the versions of /r/a and of /r/ab: every write to them commits
+		// its object record in a second, held-back batch; all read paths at every revision while the records are still locks
+		{keys: []string{"/r/a", "/r/ab", "/r/b"}, ops1: []lib.RSOp{c("/r/a", x), c("/r/ab", x), c("/r/b", x), u("/r/a", []byte("x2"), 101), d("/r/ab", 0)},
+			ops2: []lib.RSOp{c("/r/ab", []byte("back"))}, compact: math.MaxUint64, allRevs: true, holdSecondary: true,
+			borders: [][]byte{cd.EncodeObjectKey([]byte("/r/a"), 1), cd.EncodeObjectKey([]byte("/r/ab"), 1)}},
+		// TiKV, one region: a read whose timestamp is late, a write, a read at the new revision (three times)
+		{keys: []string{"/r/a", "/r/b"}, ops1: []lib.RSOp{c("/r/a", x), c("/r/b", x)}, ops2: []lib.RSOp{d("/r/a", 0)}, compact: math.MaxUint64, tsRace: true},
 		// delete, compaction above the delete, re-creation
 		{keys: []string{"/r/a", "/r/b"}, ops1: []lib.RSOp{c("/r/a", x), c("/r/b", x), d("/r/a", 101), u("/r/b", []byte("b2"), 102)}, ops2: []lib.RSOp{c("/r/a", []byte("back")), d("/r/b", 0)}, compact: 104},
 	}
@@ -763,7 +891,11 @@ func main() {
 	w := lib.NewWriter(args, "C03", "c03", "From KB Require Import Model.C03Cases.", "c03_case", "c03_check", "c03_oracle", 10)
 	totalReads := 0
 	run := func(h hist, seed uint64, kind string) {
-		for ei, e := range engines {
+		engs := engines
+		if h.holdSecondary || h.tsRace {
+			engs = []string{lib.EngTiKV} // needs the RPC / timestamp hooks of the mock cluster
+		}
+		for ei, e := range engs {
 			if kind == "random" && ei > 0 && seed%3 != 0 {
 				continue
 			}
